@@ -443,3 +443,89 @@ Proof.
   pose proof (parse_packet_spec raw Hb) as H. rewrite Hp in H. destruct H as (_ & (W & _) & _).
   destruct W as (_ & _ & _ & _ & _ & We). destruct (h_ext (p_hdr p)); [apply We|exact I].
 Qed.
+
+(* ------------------------------------------------------------------ two-byte form (profile 0x1000) *)
+Definition gt2 (l : list Z) (id : Z) : res (option (list Z)) := get2 (length l) l id.
+
+Lemma get2_fuel : forall f1 f2 l id,
+  (length l <= f1)%nat -> (length l <= f2)%nat -> get2 f1 l id = get2 f2 l id.
+Proof.
+  induction f1 as [|f1 IH]; intros f2 l id H1 H2.
+  - destruct l; [destruct f2; reflexivity|cbn in H1; lia].
+  - destruct l as [|b t]; [destruct f2; reflexivity|].
+    destruct f2 as [|f2]; [cbn in H2; lia|]. cbn [length] in H1, H2.
+    cbn [get2]. destruct (b =? 0); [apply IH; lia|].
+    destruct t as [|n t']; [reflexivity|]. cbn [length] in H1, H2. destruct (b =? id); [reflexivity|].
+    pose proof (length_drop_le n t'). apply IH; lia.
+Qed.
+
+Lemma gt2_zero t id : gt2 (0 :: t) id = gt2 t id.
+Proof. unfold gt2. cbn [length get2]. reflexivity. Qed.
+Lemma gt2_zeros k t id : gt2 (repeat 0 k ++ t) id = gt2 t id.
+Proof. induction k as [|k IH]; [reflexivity|]. cbn [repeat app]. rewrite gt2_zero. exact IH. Qed.
+Lemma get2_step f e n t' id :
+  e <> 0 ->
+  get2 (S f) (e :: n :: t') id =
+  if e =? id then (if n <=? len t' then d <- slice t' 0 n ;; Ok (Some d) else Ok None) else get2 f (drop n t') id.
+Proof. intros He. cbn [get2]. apply Z.eqb_neq in He. rewrite He. reflexivity. Qed.
+
+Lemma gt2_elem e d t id :
+  e <> 0 -> gt2 (e :: len d :: d ++ t) id = if e =? id then Ok (Some d) else gt2 t id.
+Proof.
+  intros He. unfold gt2. change (length (e :: len d :: d ++ t)) with (S (length (len d :: d ++ t))).
+  rewrite get2_step by exact He.
+  destruct (e =? id).
+  - rewrite len_app. pose proof (len_nonneg t). pose proof (len_nonneg d).
+    destruct (len d <=? len d + len t) eqn:E; [|apply Z.leb_gt in E; lia].
+    rewrite slice_ok by (rewrite ?len_app; lia). cbn [bind]. rewrite drop_0, Z.sub_0_r, take_app_exact. reflexivity.
+  - rewrite drop_app_exact. apply get2_fuel; [cbn [length]; rewrite app_length; lia|apply le_n].
+Qed.
+
+(* a well-formed two-byte block: elements (id 1..255, up to 255 data bytes), each preceded by any number of padding
+   zeros, then trailing padding *)
+Fixpoint enc2 (elems : list (nat * Z * list Z)) (trail : nat) : list Z :=
+  match elems with
+  | [] => repeat 0 trail
+  | (pad, e, d) :: rest => repeat 0 pad ++ e :: len d :: d ++ enc2 rest trail
+  end.
+Fixpoint find2 (elems : list (nat * Z * list Z)) (id : Z) : option (list Z) :=
+  match elems with
+  | [] => None
+  | (_, e, d) :: rest => if e =? id then Some d else find2 rest id
+  end.
+
+Theorem get2_wellformed elems trail id :
+  Forall (fun x => snd (fst x) <> 0) elems ->
+  gt2 (enc2 elems trail) id = Ok (find2 elems id).
+Proof.
+  induction elems as [|[[pad e] d] rest IH]; intros H.
+  - cbn [enc2 find2]. rewrite <- (app_nil_r (repeat 0 trail)), gt2_zeros. reflexivity.
+  - inversion H as [|? ? He Hr]; subst. cbn [fst snd] in He. cbn [enc2 find2].
+    rewrite gt2_zeros, gt2_elem by exact He. destruct (e =? id); [reflexivity|apply IH; exact Hr].
+Qed.
+
+(* get_extension on a 0x1000 header is the first element with that id *)
+Theorem get_extension_twobyte h elems trail id :
+  h_ext h = Some (mkExt EXT_TWO_BYTE (enc2 elems trail)) ->
+  Forall (fun x => snd (fst x) <> 0) elems ->
+  get_extension h id = Ok (find2 elems id).
+Proof.
+  intros He Hf. unfold get_extension. rewrite He. cbn [x_profile x_data]. xconsts. cbn [Z.eqb Pos.eqb].
+  fold (gt2 (enc2 elems trail) id). apply get2_wellformed. exact Hf.
+Qed.
+
+(* set_extension does not rewrite two-byte (or any non-0xBEDE) blocks: it refuses, whatever the arguments *)
+Theorem set_extension_refuses_other_profiles h e id data :
+  h_ext h = Some e -> x_profile e <> EXT_ONE_BYTE -> set_extension h id data = Err EInvalidHeader.
+Proof.
+  intros He Hp. unfold set_extension.
+  destruct ((id =? 0) || (id >=? S_ID_MAX)); [reflexivity|].
+  destruct ((len data >? S_LEN_MAX) || (len data =? 0)); [reflexivity|].
+  rewrite He. xconsts. assert (E : x_profile e =? 48862 = false) by (apply Z.eqb_neq; exact Hp). rewrite E. reflexivity.
+Qed.
+
+Example twobyte_example :
+  get_extension (mkHdr false 96 1 2 3 [] (Some (mkExt 4096 (enc2 [(1%nat, 200, [7; 8; 9]); (0%nat, 5, []); (2%nat, 200, [1])] 3%nat)))) 200 = Ok (Some [7; 8; 9]) /\
+  get_extension (mkHdr false 96 1 2 3 [] (Some (mkExt 4096 (enc2 [(1%nat, 200, [7; 8; 9]); (0%nat, 5, []); (2%nat, 200, [1])] 3%nat)))) 5 = Ok (Some []) /\
+  get_extension (mkHdr false 96 1 2 3 [] (Some (mkExt 4096 (enc2 [(1%nat, 200, [7; 8; 9]); (0%nat, 5, []); (2%nat, 200, [1])] 3%nat)))) 6 = Ok None.
+Proof. repeat split; vm_compute; reflexivity. Qed.
